@@ -497,3 +497,49 @@ def scan_guards_tight(ctx, prog):
         ctx.ob("SA-GUARD", "has_common_substring_internal: `%s - MIN_LCS` is guarded by exactly `%s >= MIN_LCS`" % (show(a)[:40], show(a)[:40]), rel == "Ge",
                "guard found: %s" % rel, f.loc(s["sp"]))
     ctx.floor("SA-GUARD", n, 2, "scan-position subtractions in has_common_substring_internal")
+
+
+def scan_exits(ctx, prog):
+    """has_common_substring_internal: the only results are the constants true / false; `true` is returned exactly at the end of a
+    window (`l == r`) whose running match is still alive (`d != 0`); `false` is returned only (a) before scanning, by the length
+    tests, or (b) when no window is left (`l < MIN_LCS_FOR_COMPARISON` at the skip).  In particular a window that fails is never a
+    reason to give up: the scan moves on.  A necessary condition of the pre-filter's exactness (the scan arithmetic itself is C09)."""
+    from ..sym import path_conds, bool_atom, const_named
+    f = prog.fn("BlockHashPositionArrayImplInternal::has_common_substring_internal")
+    ctx.visit(f)
+    sy = Sym(f)
+    sites = []
+    for i, j, s in f.stmts():
+        if s["s"] == "assign" and s["lhs"]["l"] == 0 and not s["lhs"]["p"]:
+            sites.append((i, strip(sy.rvalue(s["rv"]))))
+    for i, t in f.calls():
+        if t["dest"]["l"] == 0 and not t["dest"]["p"]:
+            sites.append((i, strip(sy.call(t, i))))
+    bad = []
+    n_true = n_short = n_exh = 0
+    for blk, e in sites:
+        v = const_value(e) if e[0] == "const" else None
+        if v is None:
+            bad.append("non-constant result %s at bb%d" % (show(e)[:60], blk))
+            continue
+        ats = [a for a in (bool_atom(c) for c in path_conds(f, sy, blk)) if a]
+        scan = [a for a in ats if a[0] in ("Eq", "Ne", "Lt", "Le", "Gt", "Ge") and strip(a[1])[0] == "local"]
+        if v == 1:
+            n_true += 1
+            ok = any(a[0] == "Eq" and strip(a[1])[0] == "local" and strip(a[2])[0] == "local" for a in ats) and \
+                any(a[0] == "Ne" and strip(a[1])[0] == "local" and const_value(strip(a[2])) == 0 for a in ats)
+            if not ok:
+                bad.append("true at bb%d not under `l == r && d != 0`: %s" % (blk, [G.show_atom(a) for a in scan][:4]))
+        else:
+            if not scan:
+                n_short += 1   # the early exit of the length tests (checked by the short-input rule)
+                continue
+            exhausted = any(a[0] == "Lt" and strip(a[1])[0] == "local" and const_named(strip(a[2]), "block_hash::MIN_LCS_FOR_COMPARISON") for a in ats)
+            window_end = any(a[0] == "Eq" and strip(a[1])[0] == "local" and strip(a[2])[0] == "local" for a in ats)
+            if exhausted and not window_end:
+                n_exh += 1
+            else:
+                bad.append("false at bb%d while windows remain: %s" % (blk, [G.show_atom(a) for a in scan][:4]))
+    ok = not bad and n_true == 1 and n_short == 1 and n_exh == 1
+    ctx.ob("SA-GUARD", "has_common_substring_internal: true only at a live window end, false only before scanning or when no window is left (a failed window is never a reason to stop)",
+           ok, "; ".join(bad) or "results: 1 true (window end, d != 0), 1 false (length tests), 1 false (l < MIN_LCS)", f.loc())
